@@ -51,6 +51,10 @@ class Collector:
         self.insts.append(Inst(self.rule, site, PASS, fact, "", where, nontrivial, extra))
 
     def finding(self, site, fact, text, where="", **extra):
+        if "<?!" in fact or "<?!" in text:
+            # the fact rests on a value the interpreter could not model (absint marks those): nothing is established
+            self.undecided(site, "value-not-modelled", fact[:120], where, **extra)
+            return
         self.insts.append(Inst(self.rule, site, FINDING, fact, text, where, True, extra))
 
     def undecided(self, site, fact, text="", where="", **extra):
